@@ -51,6 +51,9 @@ struct Registration {
 pub struct Timer {
     registration: Option<Registration>,
     deadline: Option<Instant>,
+    // Whether the timer is currently registered to an event loop (it has no
+    // `registration` while its deadline is not representable)
+    registered: bool,
 }
 
 impl Timer {
@@ -73,6 +76,7 @@ impl Timer {
         Timer {
             registration: None,
             deadline,
+            registered: false,
         }
     }
 
@@ -159,6 +163,7 @@ impl EventSource for Timer {
                 counter,
             });
         }
+        self.registered = true;
 
         Ok(())
     }
@@ -168,6 +173,11 @@ impl EventSource for Timer {
         poll: &mut Poll,
         token_factory: &mut TokenFactory,
     ) -> crate::Result<()> {
+        if !self.registered {
+            // A disabled timer stays disarmed, its new deadline is taken into
+            // account when it is enabled again.
+            return Ok(());
+        }
         self.unregister(poll)?;
         self.register(poll, token_factory)
     }
@@ -176,6 +186,7 @@ impl EventSource for Timer {
         if let Some(registration) = self.registration.take() {
             poll.timers.borrow_mut().cancel(registration.counter);
         }
+        self.registered = false;
         Ok(())
     }
 }
